@@ -3,7 +3,7 @@
 #include <zlib.h>
 #include <ctype.h>
 
-const int gq_alts[GQ__N] = { 6, 7, 2, 3, 5, 5, 3, 6, 3, 5 };
+const int gq_alts[GQ__N] = { 6, 8, 2, 3, 5, 5, 4, 6, 3, 5 };
 const int gs_alts[GS__N] = { 2, 6, 3, 5, 5, 5 };
 
 static const char *const METHODS[] = { "GET", "POST", "HEAD", "PUT", "DELETE", "OPTIONS" };
@@ -101,6 +101,9 @@ void gx_build(const int *q, const int *s, int ord, int last, gx_msg *t, hx_buf *
                 strcpy(t->uhost, "h.example"); t->uport = 8080; absolute = 1;
                 break;
         case 6: strcpy(t->target, "http://h.example:8080"); t->path[0] = 0; t->path_absent = 1; strcpy(t->uhost, "h.example"); t->uport = 8080; absolute = 1; break;
+        /* query shapes: empty value, key without '=', '=' inside a value */
+        case 7: snprintf(t->target, sizeof t->target, "/e%d?x=&k&z=a=b", ord); snprintf(t->path, sizeof t->path, "/e%d", ord); strcpy(t->query, "x=&k&z=a=b"); t->has_query = 1;
+                t->nqparams = 3; strcpy(t->qparams[0].k, "x"); t->qparams[0].v[0] = 0; strcpy(t->qparams[1].k, "k"); t->qparams[1].v[0] = 0; strcpy(t->qparams[2].k, "z"); strcpy(t->qparams[2].v, "a=b"); break;
     }
     int v10 = q[GQ_VERSION] == 1;
     snprintf(t->proto, sizeof t->proto, "%s", v10 ? "HTTP/1.0" : "HTTP/1.1"); t->pnum = v10 ? 100 : 101;
@@ -120,6 +123,9 @@ void gx_build(const int *q, const int *s, int ord, int last, gx_msg *t, hx_buf *
                   t->ncookies = 2; strcpy(t->cookies[0].k, "a"); snprintf(t->cookies[0].v, sizeof t->cookies[0].v, "%d", ord); strcpy(t->cookies[1].k, "b"); strcpy(t->cookies[1].v, "2"); break; }
         case 2: hb_puts(req, "Cookie: a=; b\r\n"); addh(t->reqh, &t->nreqh, "Cookie", "a=; b", NULL);
                 t->ncookies = 2; strcpy(t->cookies[0].k, "a"); strcpy(t->cookies[1].k, "b"); break;
+        /* a value that contains '=' (the name ends at the FIRST one), no space after the separator, three cookies */
+        case 3: hb_puts(req, "Cookie: sid=a=b=c;t=1; u=x y\r\n"); addh(t->reqh, &t->nreqh, "Cookie", "sid=a=b=c;t=1; u=x y", NULL);
+                t->ncookies = 3; strcpy(t->cookies[0].k, "sid"); strcpy(t->cookies[0].v, "a=b=c"); strcpy(t->cookies[1].k, "t"); strcpy(t->cookies[1].v, "1"); strcpy(t->cookies[2].k, "u"); strcpy(t->cookies[2].v, "x y"); break;
     }
     t->auth_type = HTP_AUTH_NONE;
     switch (q[GQ_AUTH]) {
